@@ -186,6 +186,12 @@ func (m *Manager) apply(edit Edit) {
 	case EditUpdateValueLog:
 		if edit.ValueLog != nil {
 			meta := *edit.ValueLog
+			if !meta.Valid {
+				// An invalid segment has no head offset: keep the in-memory
+				// state identical to what a snapshot rewrite (which encodes
+				// invalid segments as EditDeleteValueLog) reloads.
+				meta.Offset = 0
+			}
 			id := ValueLogID{Bucket: meta.Bucket, FileID: meta.FileID}
 			m.version.ValueLogs[id] = meta
 			if head, ok := m.version.ValueLogHead[meta.Bucket]; ok && head.FileID == meta.FileID {
